@@ -88,7 +88,7 @@ func ruleC01TypeSubsumption(c *Ctx) {
 	}
 	// atoms "instance type == integer"
 	var intAtoms []*ssa.BinOp
-	core.EachInstr(m.E, func(i ssa.Instruction) {
+	c.eachFamOwn(m.E, func(i ssa.Instruction) {
 		if bo, ok := i.(*ssa.BinOp); ok && bo.Op == token.EQL {
 			for _, pair := range [][2]ssa.Value{{bo.X, bo.Y}, {bo.Y, bo.X}} {
 				if s, ok := constString(pair[1]); ok && s == "integer" && isGot(pair[0]) {
@@ -108,7 +108,7 @@ func ruleC01TypeSubsumption(c *Ctx) {
 		return false
 	}
 	single, list := false, false
-	core.EachInstr(m.E, func(i ssa.Instruction) {
+	c.eachFamOwn(m.E, func(i ssa.Instruction) {
 		switch x := i.(type) {
 		case *ssa.BinOp:
 			if x.Op != token.EQL {
@@ -299,7 +299,7 @@ func ruleC01Bounds(c *Ctx) {
 	}
 	for _, kw := range []string{"Minimum", "Maximum", "ExclusiveMinimum", "ExclusiveMaximum"} {
 		found := false
-		core.EachInstr(m.E, func(i ssa.Instruction) {
+		c.eachFam(m.E, func(i ssa.Instruction) {
 			ifi, isIf := i.(*ssa.If)
 			if !isIf {
 				return
@@ -452,7 +452,7 @@ func ruleC01AdditionalIndependent(c *Ctx) {
 			}
 			// inside a yield closure run under the falsy test
 			if fn != m.E {
-				core.EachInstr(m.E, func(j ssa.Instruction) {
+				c.eachFamOwn(m.E, func(j ssa.Instruction) {
 					if cc, ok := j.(ssa.CallInstruction); ok {
 						for _, a := range cc.Common().Args {
 							if mc, ok := a.(*ssa.MakeClosure); ok && mc.Fn == fn {
